@@ -32,7 +32,7 @@ def obligations(tier):
                       stubs=STUBS, defs={"PART": 5, "ID": 1, "FIELD": fld}, unwind=90, timeout=900, mem=6, family="needs-rehash",
                       desc="hash string whose %s= field is any 10-digit decimal: values above 2^32-1 => malformed (-1), never truncated" % fn,
                       bounds="all 10-digit values of the field (9*10^9 strings), rest of the string fixed"))
-    for nch in ((1, 2, 4) if tier != "thorough" else (1, 2, 3, 4, 6, 12)):
+    for nch in ((1, 2, 4) if tier != "thorough" else (1, 2, 3, 4, 6, 10)):
         obs.append(Ob("decode-decimal-%dch" % nch, "C08/pwhash.c", units=[A2 + "argon2-core.c"] + COMMON, stubs=STUBS,
                       defs={"PART": 3, "NCH": nch}, unwind=30, timeout=900, family="decode-decimal",
                       desc="decode_decimal: value/end pointer, rejects empty, leading zeros, overflow", bounds="all strings of %d characters (+NUL)" % nch))
